@@ -892,6 +892,9 @@ func (c *Client) Start() (addr net.Addr, err error) {
 		default:
 			err = fmt.Errorf("Unknown address type: %s", address)
 		}
+		if err != nil {
+			return nil, err
+		}
 
 		// If we have a server type, then record that. We default to net/rpc
 		// for backwards compatibility.
